@@ -29,7 +29,7 @@ itself — an independent reference implementation in the harness):
   jwk.curve.order [crv]          → int       Params().N
   jwk.curve.scalarBaseMult [crv, d] → [x, y] ScalarBaseMult(d.Bytes())
   jwk.rsa.validate [n, e, d, [primes]] → bool  (*rsa.PrivateKey).Validate() == nil
-  jwk.rsa.precompute [n, e, d, [primes]] → [dp, dq, qi]  (*rsa.PrivateKey).Precompute()
+  jwk.rsa.precompute [n, e, d, [primes]] → [dp, dq, qi, [[exp, coeff, r]…]]  (*rsa.PrivateKey).Precompute()
   jwk.ed25519.pub, jwk.ed448.pub, jwk.x25519.pub, jwk.x448.pub [seed] → public value (bytes)
   jwk.pem.decode [bytes] → [type, der, rest] | none;  jwk.x509.pkcs1priv, jwk.x509.pkcs1pub,
   jwk.x509.pkcs8priv, jwk.x509.pkixpub [der] → Go key object (wire form) | none
@@ -811,9 +811,12 @@ def encodeECDH (m : Obj) (priv : Option Bytes) (c : EcdhCurve) (pub : Bytes) : P
 
 /-! ## symmetric -/
 
+/-- `parseSymmetricKey`: a certificate chain cannot certify a symmetric key (6034da1) -/
 def parseOct (m : Obj) (key : Key) : PO Key := do
   let k ← mustBytes m "k"
-  pure { key with priv := .oct k }
+  match key.x5c with
+  | some (_ :: _) => PO.fail "cert-key"
+  | _ => pure { key with priv := .oct k }
 
 def encodeOct (m : Obj) (k : Bytes) : PO Obj := do
   let m := oset m "kty" (.str jwa.Oct)
